@@ -55,13 +55,16 @@ PROPS = {
     },
     "C15": {
         "lean": "Props.C15",
-        "domains": [{"name": "resolve"}],
+        "domains": [{"name": "resolve"}, {"name": "loadresolve"}],
         "trusted": ["Go regexp's leftmost-first semantics for `^lit(.*)lit…$` is what Resolve.Glob mirrors; "
                     "sajari/fuzzy ranking is an oracle (only 'a suggestion exists' is checked)"],
         "assumptions": ["names are valid UTF-8; resolution table built in memory through ast.Tasks.Set"],
         "level_text": "Theorems (all names, patterns, tables): matcher soundness/completeness/greediness, only '*' special, "
                       "exact > first wildcard in table order > unique alias, ambiguity = 203, unknown = 200. Tie: ast.Task.WildcardMatch and "
-                      "Executor.GetTask are run on generated tables over an alphabet with regexp metacharacters and must equal the model.",
+                      "Executor.GetTask are run on generated tables over an alphabet with regexp metacharacters and must equal the model. "
+                      "Second tie (loadresolve): the tables that includes produce — generated include trees (nesting, flatten, namespace aliases, "
+                      "task aliases, default tasks, excludes) are loaded by the real executor and asked for names along every namespace / alias path "
+                      "plus near misses; GetTask's answer must equal Resolve.resolve applied to the Load model's merged table.",
         "level_note": "Trusted: Lean kernel; harness canonicalisation; Go regexp semantics for the quoted pattern; fuzzy suggestion is an oracle.",
     },
     "C07": {
